@@ -565,16 +565,10 @@ func ReturnsReachable(starts []Edge, avoid []Edge) []*ssa.Return {
 // (nil if b is in no loop). A natural loop is identified by a back edge t->h
 // where h dominates t.
 func LoopOf(b *ssa.BasicBlock) map[*ssa.BasicBlock]bool {
-	fn := b.Parent()
 	var best map[*ssa.BasicBlock]bool
-	for _, t := range fn.Blocks {
-		for _, h := range t.Succs {
-			if h.Dominates(t) {
-				body := naturalLoop(h, t)
-				if body[b] && (best == nil || len(body) < len(best)) {
-					best = body
-				}
-			}
+	for _, body := range Loops(b.Parent()) {
+		if body[b] && (best == nil || len(body) < len(best)) {
+			best = body
 		}
 	}
 	return best
@@ -766,4 +760,35 @@ func FlagPhis(fn *ssa.Function, onTrue []Edge) []*ssa.Phi {
 		}
 	}
 	return out
+}
+
+// LoopHeader returns the block of a natural loop body that dominates all others.
+func LoopHeader(body map[*ssa.BasicBlock]bool) *ssa.BasicBlock {
+	for h := range body {
+		all := true
+		for b := range body {
+			if !h.Dominates(b) {
+				all = false
+				break
+			}
+		}
+		if all {
+			return h
+		}
+	}
+	return nil
+}
+
+// OnlyHeaderExits reports whether every edge leaving the loop starts at its
+// header (the range/for condition): no break, return or goto inside the body.
+// The offending edges are returned otherwise.
+func OnlyHeaderExits(body map[*ssa.BasicBlock]bool) (bool, []Edge) {
+	h := LoopHeader(body)
+	var bad []Edge
+	for _, e := range ExitEdgesOf(body) {
+		if e.From != h {
+			bad = append(bad, e)
+		}
+	}
+	return len(bad) == 0 && h != nil, bad
 }
